@@ -48,6 +48,10 @@ pub const SQLS: &[&str] = &[
     // blanks at the end of the first / a middle line belong to the text
     "select a,  \n b\t\n from t",
     "select 1 \n\t+ 2 \u{a0}\n + 3",
+    // a blanks-only line and a `----` line with a trailing blank are part of the text, not its end
+    "select 'a\n  \n b'",
+    "select 1\n---- \n+ 2",
+    "select 2\n ----\n+ 3",
     "SELECT 1",
     "drop table t",
     "select ---- x",
